@@ -402,6 +402,24 @@ class Scn:
         return ex
 
     @staticmethod
+    def _classify_double_running(w: World) -> str | None:
+        """Both same-key invocations became RUNNING. If the second runner's authorisation lookup
+        (same key RUNNING?) completed before the first one's RUNNING transition did, the cause is the
+        non-atomic check-then-act between lookup and transition; otherwise the lookup itself missed a
+        visible RUNNING invocation (no classification: reported with its windows)."""
+        runs = [e for e in w.log if e[0] == "tr" and e[5] == "ok" and e[3] == "RUNNING" and e[2] in w.args]
+        if len(runs) < 2:
+            return None
+        runs.sort(key=lambda e: e[7])
+        first, second = runs[0], runs[1]
+        looks = [o for o in w.ops if o[0] == second[1] and o[2] == "lookup[RUNNING]" and o[1] <= second[7]]
+        if not looks:
+            return None
+        if looks[-1][3] <= first[7]:  # the lookup had started before the first RUNNING was complete
+            return "authorisation-lookup-not-atomic-with-running-transition"
+        return None
+
+    @staticmethod
     def _running_probe(w: World) -> Any:
         """Returns a function reading the ids that are RUNNING in the *visible* concrete state."""
         orch = w.apps[-1].orchestrator
@@ -434,14 +452,24 @@ class Scn:
             return
         for e in w.log:
             if e[0] == "poll-error":
-                p.violation({"clause": f"poll-raised:{e[2]}", **base}, {"log": [x for x in w.log if x[0] != "ran"][-14:]}, {})
+                # which blocked status has no edge is what identifies this failure, not the schedule that
+                # brought the invocation there
+                p.violation({"clause": f"poll-raised:{e[2]}", "backend": d["backend"], "mode": d["mode"],
+                             "reroute": d["reroute"], "_no_windows": True},
+                            {"subs": d["subs"], "log": [x for x in w.log if x[0] != "ran"][-14:]}, {})
                 return
         # the invariant was evaluated on the visible concrete state at every scheduling point
         if w.flags:
             oks = sorted(worlds.successful(w.log), key=lambda e: e[6][2])
-            p.violation({"clause": "two-running-same-key", **base},
-                        {"ids": w.flags[0][1], "at_point": w.flags[0][2],
-                         "changes": [(x[2][-2:], x[3], x[4]) for x in oks]}, {})
+            detail = {"ids": w.flags[0][1], "at_point": w.flags[0][2], "subs": d["subs"],
+                      "changes": [(x[2][-2:], x[3], x[4]) for x in oks]}
+            cause = self._classify_double_running(w)
+            if cause is not None:
+                # schedule-independent identity: which read was stale when the second one started
+                p.violation({"clause": "two-running-same-key", "cause": cause, "backend": d["backend"],
+                             "mode": d["mode"], "_no_windows": True}, detail, {})
+            else:
+                p.violation({"clause": "two-running-same-key", **base}, detail, {})
             return
         # end state: every invocation final, or available and queued (reroute on)
         q = w.queue(-1)
@@ -487,7 +515,7 @@ def run(ctx: Ctx) -> None:
                     if not ctx.thorough and mode == "TASK" and subs == "samekey":
                         continue
                     ds.append(dict(backend=backend, mode=mode, reroute=rr, subs=subs,
-                                   bound=2 if ctx.thorough else 1))
+                                   bound=2 if (ctx.thorough and subs in ("same", "held")) else 1))
     if getattr(ctx, "only", None):
         ds = [d for d in ds if ctx.only in e1.desc_key(d)]
     e1.explore_all(ctx, MOD, ds, lambda d: d["bound"])
